@@ -111,79 +111,32 @@ theorem mdhd_classes (p : Bytes) (e : PyErr) (h : mdhdLength p = .error e) : e =
         · cases h
       · cases h; exact .inl rfl
 
-theorem entry_build (e : AudioEntry) (ok : e.OK) : entryBase (entryPayload e) = .ok (entryExpected e) := by
-  obtain ⟨h1, h2, h3, h4, h5, h6, h7, _⟩ := ok
-  have hl : ¬ (entryPayload e).length < 28 := by simp [entryPayload]; omega
-  have r16 : readAt (entryPayload e) 16 2 = toBE 2 e.channelCount := by
-    simp only [entryPayload, List.append_assoc]
+theorem length_entryFixed (e : AudioEntry) : (entryFixed e).length = 28 := by simp [entryFixed]
+
+theorem entryBase_fixed (e : AudioEntry) (ok : e.OK) (rest : Bytes) :
+    entryBase (entryFixed e ++ rest) = .ok { channels := e.channelCount, sampleSize := e.sampleSize, sampleRate := e.sampleRate } := by
+  obtain ⟨h1, h2, h3, h4, h5, h6, h7⟩ := ok
+  have hl : ¬ (entryFixed e ++ rest).length < 28 := by simp [length_entryFixed]
+  have r16 : readAt (entryFixed e ++ rest) 16 2 = toBE 2 e.channelCount := by
+    simp only [entryFixed, List.append_assoc]
     rw [readAt_skip _ _ _ _ 6 (length_zeros 6) (by decide), readAt_skip _ _ _ _ 2 (length_toBE _ _) (by decide),
       readAt_skip _ _ _ _ 8 (length_zeros 8) (by decide)]
     read_field
-  have r18 : readAt (entryPayload e) 18 2 = toBE 2 e.sampleSize := by
-    simp only [entryPayload, List.append_assoc]
+  have r18 : readAt (entryFixed e ++ rest) 18 2 = toBE 2 e.sampleSize := by
+    simp only [entryFixed, List.append_assoc]
     rw [readAt_skip _ _ _ _ 6 (length_zeros 6) (by decide), readAt_skip _ _ _ _ 2 (length_toBE _ _) (by decide),
       readAt_skip _ _ _ _ 8 (length_zeros 8) (by decide)]
     read_field
-  have r24 : readAt (entryPayload e) 24 4 = toBE 4 (e.sampleRate * 2 ^ 16 + e.sampleRateFraction) := by
-    simp only [entryPayload, List.append_assoc]
+  have r24 : readAt (entryFixed e ++ rest) 24 4 = toBE 4 (e.sampleRate * 2 ^ 16 + e.sampleRateFraction) := by
+    simp only [entryFixed, List.append_assoc]
     rw [readAt_skip _ _ _ _ 6 (length_zeros 6) (by decide), readAt_skip _ _ _ _ 2 (length_toBE _ _) (by decide),
       readAt_skip _ _ _ _ 8 (length_zeros 8) (by decide)]
     read_field
   unfold entryBase
   rw [if_neg hl]
   simp only [r16, r18, r24, ofBE_toBE 2 _ (show e.channelCount < 256 ^ 2 by omega), ofBE_toBE 2 _ (show e.sampleSize < 256 ^ 2 by omega),
-    ofBE_toBE 4 _ (show e.sampleRate * 2 ^ 16 + e.sampleRateFraction < 256 ^ 4 by omega), entryExpected]
+    ofBE_toBE 4 _ (show e.sampleRate * 2 ^ 16 + e.sampleRateFraction < 256 ^ 4 by omega)]
   have : (e.sampleRate * 2 ^ 16 + e.sampleRateFraction) / 2 ^ 16 = e.sampleRate := by omega
   rw [this]
-
-theorem entry_full (e : AudioEntry) (ok : e.OK) : entry (entryPayload e) = .ok (entryExpected e) := by
-  have hb := entry_build e ok
-  obtain ⟨_, _, _, _, _, _, _, h8, h9, h10⟩ := ok
-  have hd : (entryPayload e).drop 28 = e.children := by
-    have : entryPayload e = (zeros 6 ++ toBE 2 e.dataReferenceIndex ++ zeros 8 ++ toBE 2 e.channelCount ++ toBE 2 e.sampleSize ++
-        toBE 2 e.preDefined ++ toBE 2 e.reserved ++ toBE 4 (e.sampleRate * 2 ^ 16 + e.sampleRateFraction)) ++ e.children := rfl
-    rw [this]; exact List.drop_left' (by simp)
-  unfold entry
-  rw [hb]
-  simp only [hd]
-  have hl : ¬ (e.children.take 8).length < 8 := by simp only [List.length_take]; omega
-  have ht : (e.children.take 8).take 4 = e.children.take 4 := by rw [List.take_take]; rfl
-  have hn : (e.children.take 8).drop 4 = (e.children.drop 4).take 4 := by rw [List.drop_take]
-  unfold extraAtom
-  simp only [hl, ↓reduceIte, ht, hn, h10]
-  have n1 : ¬ ofBE (e.children.take 4) = 1 := by omega
-  have n0 : ¬ ofBE (e.children.take 4) = 0 := by omega
-  have n8 : ¬ ofBE (e.children.take 4) < 8 := by omega
-  simp only [n1, n0, n8, ↓reduceIte, Bool.false_eq_true]
-
-theorem entry_full_classes (p : Bytes) (e : PyErr) (h : entry p = .error e) : e = .mutagen ∨ e = .notImplemented := by
-  unfold entry at h
-  split at h
-  · rename_i e' he; cases h
-    unfold entryBase at he
-    split at he
-    · cases he; exact .inl rfl
-    · cases he
-  · split at h
-    · rename_i e' he; cases h
-      unfold extraAtom at he
-      simp only [] at he
-      split at he
-      · cases he; exact .inl rfl
-      · split at he
-        · rename_i e'' hs
-          cases he
-          repeat' (split at hs)
-          all_goals (first | (cases hs; exact .inl rfl) | cases hs)
-        · split at he
-          · cases he; exact .inr rfl
-          · cases he
-    · cases h
-
-theorem entry_classes (p : Bytes) (e : PyErr) (h : entryBase p = .error e) : e = .mutagen := by
-  unfold entryBase at h
-  split at h
-  · cases h; rfl
-  · cases h
 
 end Mutagen.Info.Mp4
